@@ -21,20 +21,29 @@ Local Open Scope N_scope.
 
 (** ---- byte-string helpers (payloads can be > 256 KiB: no unary [nat] counters) ---- *)
 
-Fixpoint lenN {A} (l : list A) : N :=
-  match l with [] => 0 | _ :: t => N.succ (lenN t) end.
+(** all three are written tail-recursively: the correspondence evaluates them by
+    vm_compute on 256 KiB .. 1 MiB payloads, where deep non-tail recursion is very slow *)
+Fixpoint lenN_acc {A} (l : list A) (acc : N) : N :=
+  match l with
+  | _ :: _ :: _ :: _ :: _ :: _ :: _ :: _ :: t => lenN_acc t (acc + 8)
+  | _ :: t => lenN_acc t (N.succ acc)
+  | [] => acc
+  end.
+Definition lenN {A} (l : list A) : N := lenN_acc l 0.
 
 (** [b[:n]] of Go's [copy]/slicing when [n] may exceed the length *)
-Fixpoint takeN {A} (n : N) (l : list A) : list A :=
+Fixpoint takeN_acc {A} (n : N) (l acc : list A) : list A :=
   match l with
-  | [] => []
-  | x :: t => if n =? 0 then [] else x :: takeN (N.pred n) t
+  | [] => rev_append acc []
+  | x :: t => if n =? 0 then rev_append acc [] else takeN_acc (N.pred n) t (x :: acc)
   end.
+Definition takeN {A} (n : N) (l : list A) : list A :=
+  if lenN l <=? n then l else takeN_acc n l [].
 
 Fixpoint beq (a b : list N) : bool :=
   match a, b with
   | [], [] => true
-  | x :: a', y :: b' => (x =? y) && beq a' b'
+  | x :: a', y :: b' => if x =? y then beq a' b' else false
   | _, _ => false
   end.
 
@@ -62,8 +71,9 @@ Definition hasher_sum (span data : list N) : list N := H span (hasher_write [] d
 
 (** cac.Valid *)
 Definition cac_valid_go (a p : list N) : bool :=
-  if lenN p <? span_size then false
-  else if chunk_size + span_size <? lenN p then false
+  let n := lenN p in
+  if n <? span_size then false
+  else if chunk_size + span_size <? n then false
   else beq (hasher_sum (span_of p) (data_of p)) a.
 
 (** pipeline/bmt bmtWriter.ChainWrite: [None] = errInvalidData, else p.Ref *)
@@ -291,11 +301,17 @@ Fixpoint send_pyramid (bounded : bool) (st : pstate) (root : list N) (frames : l
   | FResp h c false :: t => send_pyramid bounded st root t (acc ++ [(h, c)]) w fail_at source_ok
   end.
 
+(** doFindChunkPyramid: nothing is sent for a root that is already known *)
+Definition find_pyramid (bounded : bool) (st : pstate) (root : list N) (frames : list frame)
+  (w : walk) (fail_at : option N) (source_ok : bool)
+  : pstate * list (list N * list N) * pclass :=
+  if mem root (fst st) then (st, [], PSkip) else send_pyramid bounded st root frames [] w fail_at source_ok.
+
 Record pyr_op := {
   op_root : list N; op_frames : list frame; op_walk : walk; op_fail : option N; op_source_ok : bool }.
 
 Definition pyr_step (bounded : bool) (st : pstate * list (list N * list N)) (o : pyr_op) :=
-  let '(st', ps, _) := send_pyramid bounded (fst st) (op_root o) (op_frames o) [] (op_walk o) (op_fail o) (op_source_ok o) in
+  let '(st', ps, _) := find_pyramid bounded (fst st) (op_root o) (op_frames o) (op_walk o) (op_fail o) (op_source_ok o) in
   (st', snd st ++ ps).
 
 (** all Puts made by a history of pyramid exchanges, from the empty state *)
